@@ -27,6 +27,7 @@
 package webdoc
 
 import (
+	"bytes"
 	"fmt"
 	nurl "net/url"
 
@@ -132,7 +133,9 @@ func (t *Text) GenerateOutput(textOnly bool) string {
 	}
 
 	if CanBeNested(dom.TagName(clonedRoot)) {
-		return dom.InnerHTML(clonedRoot)
+		// Several texts may share one list item or quote (e.g. around a removed form control),
+		// so the white space at the ends must stay or their words would be glued together.
+		return innerHTML(clonedRoot)
 	}
 
 	// Parts of a table (cells, rows, captions) are only valid inside a <table>, which is not
@@ -141,6 +144,18 @@ func (t *Text) GenerateOutput(textOnly bool) string {
 	replaceTableParts(clonedRoot)
 
 	return dom.OuterHTML(clonedRoot)
+}
+
+// innerHTML is dom.InnerHTML without trimming the white space at both ends.
+func innerHTML(node *html.Node) string {
+	var buffer bytes.Buffer
+	for child := node.FirstChild; child != nil; child = child.NextSibling {
+		if err := html.Render(&buffer, child); err != nil {
+			return dom.InnerHTML(node)
+		}
+	}
+
+	return buffer.String()
 }
 
 func replaceTableParts(node *html.Node) {
